@@ -23,7 +23,7 @@ def source_stamp():
     import hashlib
     h = hashlib.sha1()
     pats = ["floogen/**/*.py", "floogen/**/*.mako", "floogen/examples/*.yml", "hw/**/*.sv", "hw/**/*.svh", "util/*.py",
-            "Bender.yml", "floo_noc.core"]
+            "Bender.yml", "floo_noc.core", "Makefile"]
     names = set()
     for pat in pats:
         names.update(glob.glob(os.path.join(common.REPO, pat), recursive=True))
